@@ -139,8 +139,11 @@ pub(crate) fn last_meta_timestamp(
         .data_len_bytes()
         .map_err(ExtractingTsError::GetDataLength)?;
 
-    let window = 10_000u64.next_multiple_of(payload_size.line_size() as u64);
     let overlap = payload_size.metainfo_size();
+    // must be larger then overlap or stepping the window back makes no progress
+    let window = 10_000u64
+        .max(2 * overlap as u64)
+        .next_multiple_of(payload_size.line_size() as u64);
     let mut start = data_bytes.saturating_sub(window);
 
     loop {
